@@ -1,5 +1,6 @@
 import FastorModel.Driver.Matmul
 import FastorModel.Driver.Einsum
+import FastorModel.Driver.Expr
 /-
   `fmodel`: line-protocol driver.  Reads one case per line on stdin, prints the model's observables
   for it.  The harness prints the implementation's observables for the same case in the same format.
@@ -13,6 +14,7 @@ def step (line : String) : String :=
   | "tmatmul" :: rest => runTmatmul (parseKV rest)
   | "einsum" :: rest => runEinsum (parseKV rest)
   | "einsumn" :: rest => runEinsumN (parseKV rest)
+  | "expr" :: rest => runExpr (parseKV rest)
   | _ => "bad-op"
 
 partial def loop (h : IO.FS.Stream) (out : IO.FS.Stream) : IO Unit := do
